@@ -518,6 +518,23 @@ func (nm *NodeMachine) Apply(op NOp) error {
 		if op.TwoCB {
 			txs = append(txs, AwardTx(prop.Address, award, "award2-"+op.Label, nm.LM.Ts))
 		}
+		if op.CBIn == 5 {
+			// a forged "timer" transaction: autogen flag and a read / write set that no due timer task produces
+			key := RawKey(VerifContract, "a")
+			in := &protos.TxInputExt{Bucket: VerifContract, Key: []byte("a")}
+			if kv := s.KV[key]; kv != nil {
+				in.RefTxid, in.RefOffset = kv.Txid, kv.Off
+			}
+			ft := &pb.Transaction{Version: 3, Autogen: true, Nonce: "forged-timer-" + op.Label, Timestamp: nm.LM.Ts,
+				TxInputsExt:  []*protos.TxInputExt{in},
+				TxOutputsExt: []*protos.TxOutputExt{{Bucket: VerifContract, Key: []byte("a"), Value: []byte("forged")}}}
+			ft.Txid, _ = txhash.MakeTransactionID(ft)
+			txs = append(txs, ft)
+			nm.KeyUniv[key] = true
+			valid = false
+			whyNot = "the block carries an autogen transaction whose read / write set no due timer task produces"
+			nm.Stat["peer-forged-timer-tx"]++
+		}
 		// transactions re-used from other blocks come first (generated ones may build on them)
 		for _, idHex := range op.Old {
 			for _, btxs := range nm.blockTxsSorted() {
